@@ -6,13 +6,13 @@ from .. import tlc
 from ..adapters import framelife as ad
 
 MODULE = "FrameLife"
-ACTIONS = ["Create", "GetWaterfall", "CopyOp", "PickleOp", "Mutate", "ShiftTs", "Rebind", "Slice", "Dedrift", "Integrate", "Save", "Load", "LoadSub", "LoadT"]
+ACTIONS = ["Create", "GetWaterfall", "CopyOp", "PickleOp", "Mutate", "ShiftTs", "Rebind", "Slice", "Dedrift", "Integrate", "Save", "SaveFail", "Load", "LoadSub", "LoadT"]
 
 
 def run_for(ctx, pid):
     ctx.assume("pixel identities 1000*(row+1) + world channel (exact in float32); blimpy.Waterfall is the independent file "
                "reader; start time compared at 1e-4 s (MJD header precision); frequencies on the grid at 1e-3 channel")
-    ops = ctx.pick(3, 5)
+    ops = ctx.pick(3, 5 if pid == "C03" else 4)          # the deepest exhaustive run once (C03); C17 / C12 re-check to depth 4
     cfg = tlc.cfg_with("FrameLife_MC.cfg", {"MaxOps": str(ops)}, ctx.outdir)
     res = tlc.run(MODULE, cfg, ctx.outdir, workers=8, coverage=True, timeout=2400)
     ctx.add_tlc(res, "FrameLife_MC MaxOps=%d" % ops, "M")
@@ -52,7 +52,7 @@ def focus_behaviours(ctx):
     if ctx.quick():
         # behaviours ending in a save are the informative ones
         d5 = [b for b in d5 if b[-2]["act"]["name"] == "Save"]
-        d5 = rnd.sample(d5, min(len(d5), 400))
+        d5 = rnd.sample(d5, min(len(d5), 200))
     behs += d5
     return behs
 
